@@ -4,6 +4,7 @@ import (
 	"encoding/json"
 	"fmt"
 	"runtime"
+	"strings"
 	"time"
 
 	"github.com/vmware/go-ipfix/pkg/collector"
@@ -76,7 +77,35 @@ func c04Alphabet() []c04op {
 	return ops
 }
 
+// c04Deep is the reduced alphabet of the deep pass: one domain, two ids, two templates, one bad template and
+// two bodies per id. State the collector might keep outside its template table (a cache, a "last used"
+// pointer) is invisible to the de-duplicated search of pass (b); only plain history enumeration reaches it.
+func c04Deep(ops []c04op) []c04op {
+	var out []c04op
+	for _, o := range ops {
+		for _, k := range []string{"T_A(d1,", "T_B(d1,", "Bad_trunc(d1,", "D_A(d1,", "D_B(d1,"} {
+			if strings.HasPrefix(o.name, k) {
+				out = append(out, o)
+			}
+		}
+	}
+	return out
+}
+
+// c04guard turns a decoder that hangs or eats memory on some history into a violation naming that history.
+var c04guard *common.Guard
+
+type c04where struct {
+	Config string
+	Hist   []int
+	Ops    []string
+}
+
 type c04sys struct {
+	name  string
+	hist  []int
+	names []string
+	slot  *common.GuardSlot
 	mode  colmodel.Mode
 	cp    *collector.CollectingProcess
 	ch    chan *entities.Message
@@ -93,11 +122,21 @@ func newC04(mode colmodel.Mode, proto string, ops []c04op) *c04sys {
 	}
 	ch := make(chan *entities.Message, 4)
 	cp.VerifSetMsgChan(ch)
-	return &c04sys{mode: mode, cp: cp, ch: ch, model: colmodel.New(mode), ops: ops}
+	return &c04sys{name: fmt.Sprintf("%s/%s", mode, proto), mode: mode, cp: cp, ch: ch, model: colmodel.New(mode), ops: ops}
 }
 
 func (s *c04sys) Apply(op int) (v *xplore.Violation) {
 	o := s.ops[op]
+	if c04guard != nil {
+		s.hist, s.names = append(s.hist, op), append(s.names, o.name)
+		w := c04where{s.name, s.hist, s.names}
+		if s.slot == nil {
+			s.slot = c04guard.Enter(w)
+		} else {
+			s.slot.Update(w)
+		}
+		defer s.slot.Idle()
+	}
 	exp := s.model.Message(o.msg)
 	var msg *entities.Message
 	var err error
@@ -142,7 +181,11 @@ func (s *c04sys) Canon() string {
 	c, _ := colcheck.ImplCanon(s.cp.VerifTemplates())
 	return c
 }
-func (s *c04sys) Close() {}
+func (s *c04sys) Close() {
+	if s.slot != nil {
+		s.slot.Leave()
+	}
+}
 
 func runC04(tier, replay string) int {
 	rep := common.NewReporter("C04")
@@ -152,11 +195,16 @@ func runC04(tier, replay string) int {
 		proto string
 	}
 	cfgs := []cfgT{{colmodel.Strict, "tcp"}, {colmodel.Strict, "udp"}, {colmodel.Keep, "tcp"}, {colmodel.Drop, "udp"}}
-	mk := func(c cfgT) *xplore.Config {
+	deepOps := c04Deep(ops)
+	mkOps := func(c cfgT, ops []c04op, suffix string) *xplore.Config {
 		return &xplore.Config{
-			Name: fmt.Sprintf("%s/%s", c.mode, c.proto), NumOps: len(ops),
+			Name: fmt.Sprintf("%s/%s%s", c.mode, c.proto, suffix), NumOps: len(ops),
 			OpName:  func(i int) string { return ops[i].name },
-			New:     func() xplore.Sys { return newC04(c.mode, c.proto, ops) },
+			New: func() xplore.Sys {
+				s := newC04(c.mode, c.proto, ops)
+				s.name += suffix
+				return s
+			},
 			Workers: runtime.NumCPU(),
 			Known: func(v *xplore.Violation, h []int) (string, bool) {
 				return rep.CheckKnown(v.Kind, v.Detail)
@@ -164,6 +212,11 @@ func runC04(tier, replay string) int {
 			Interesting: func(cn string) bool { return len(cn) > 0 },
 		}
 	}
+	mk := func(c cfgT) *xplore.Config { return mkOps(c, ops, "") }
+	c04guard = common.ReportingGuard(rep, replay, func(what interface{}) (string, string, interface{}) {
+		w := what.(c04where)
+		return w.Config, fmt.Sprintf("history %v: decoding does not terminate promptly with bounded memory", w.Ops), map[string]interface{}{"hist": w.Hist, "ops": w.Ops}
+	})
 	if tier == "replay" {
 		r, err := common.ReadReplay(replay)
 		if err != nil {
@@ -176,10 +229,14 @@ func runC04(tier, replay string) int {
 		b, _ := json.Marshal(r.Trace)
 		json.Unmarshal(b, &tr)
 		for _, c := range cfgs {
-			if fmt.Sprintf("%s/%s", c.mode, c.proto) != r.Scenario {
+			if fmt.Sprintf("%s/%s", c.mode, c.proto) != strings.TrimSuffix(r.Scenario, "/deep") {
 				continue
 			}
 			x := mk(c)
+			if strings.HasSuffix(r.Scenario, "/deep") {
+				x = mkOps(c, deepOps, "/deep")
+				ops = deepOps
+			}
 			for i, op := range tr.Hist {
 				fmt.Printf("  step %d: %s\n", i, ops[op].name)
 			}
@@ -205,11 +262,32 @@ func runC04(tier, replay string) int {
 	exhaustive := true
 	closedAll := true
 	var perCfg []interface{}
+	type runT struct {
+		c    cfgT
+		deep bool
+	}
+	var runs []runT
 	for _, c := range cfgs {
+		runs = append(runs, runT{c, false})
+	}
+	runs = append(runs, runT{cfgs[0], true}, runT{cfgs[3], true})
+	deepDepth := 5
+	if tier == "thorough" {
+		deepDepth = 7
+	}
+	for _, r := range runs {
+		c := r.c
 		x := mk(c)
 		x.HistDepth, x.StateDepth = histDepth, stateDepth
 		if c.mode != colmodel.Strict && tier != "thorough" {
 			x.HistDepth = 2
+		}
+		if r.deep {
+			x = mkOps(c, deepOps, "/deep")
+			x.HistDepth, x.StateDepth = deepDepth, 0
+			if c.mode != colmodel.Strict && tier == "thorough" {
+				x.HistDepth = deepDepth - 1
+			}
 		}
 		res := xplore.Run(x)
 		for _, f := range res.Violations {
@@ -220,7 +298,7 @@ func runC04(tier, replay string) int {
 		trans += res.HistTransitions + res.StateTransitions
 		traces += res.Histories + res.StateTransitions
 		exhaustive = exhaustive && res.HistExhaustive
-		closedAll = closedAll && res.Closed
+		closedAll = closedAll && (res.Closed || r.deep) // the deep pass has no pass (b)
 		for _, s := range res.Samples {
 			if len(samples) < 8 {
 				samples = append(samples, map[string]interface{}{"config": x.Name, "history": s})
@@ -239,11 +317,12 @@ func runC04(tier, replay string) int {
 	cov["samples"] = samples
 	cov["evaluations"] = traces
 	cov["distinct_nontrivial"] = interesting
-	cov["rule"] = "pass (a): every history of the 52-message alphabet (2 domains x 2 ids x {6 valid templates incl. one that extends another, one that differs only in enterprise number and one announcing a non-registry width, 4 bad templates, 3 data bodies}) up to hist_depth, replayed on a fresh collector in lock-step with the tmplstore/refcodec model; pass (b): BFS de-duplicated on the collector's template-table snapshot until the graph closes. distinct_nontrivial = distinct reachable template tables with at least one template"
+	cov["rule"] = "pass (a): every history of the 52-message alphabet (2 domains x 2 ids x {6 valid templates incl. one that extends another, one that differs only in enterprise number and one announcing a non-registry width, 4 bad templates, 3 data bodies}) up to hist_depth, replayed on a fresh collector in lock-step with the tmplstore/refcodec model; pass (b): BFS de-duplicated on the collector's template-table snapshot until the graph closes; deep pass: every history up to deep_depth over a 10-message sub-alphabet (one domain, two ids x {2 templates, 1 bad template, 2 bodies}) in strict/tcp and drop/udp, for state the table snapshot does not show. distinct_nontrivial = distinct reachable template tables with at least one template"
 	cov["exhaustive"] = exhaustive && closedAll
 	cov["closed"] = closedAll
 	cov["per_config"] = perCfg
 	cov["hist_depth"] = histDepth
+	cov["deep_depth"] = deepDepth
 	ev.Coverage = cov
 	ev.Assumptions = []string{"known elements are decoded at the registry's width (reduced-size encoding is not supported by the library and not in the alphabet)", "template lifetime is out of scope here (clock never fires); see C10"}
 	ev.WallS = common.Since(rep.Start)
